@@ -505,6 +505,7 @@ class Arg:
         self.forced = list(forced) if forced is not None else None
         self.r = op['r']
         self.repeat = bool(op.get('repeat'))
+        self.cell = op.get('cell', 0)
         self.twin_vary = op.get('twin_vary')
         self.resolved = []
         self.fault = op.get('fault') or {}
@@ -1000,6 +1001,75 @@ class Exec:
                     art.get_alpha()]
         return fn, f'{_n(reg)}.as_mpl_selector({sorted(kw)})', None
 
+    def op_cell(self, a):
+        """Run ``index`` of a batch visits cell ``index mod #cells`` of region
+        class x kind of call, with a region that carries EVERY meta and visual
+        key (so that code reached only for one class and one key - a text
+        region's rotation, a FITS component number - is executed in every
+        batch): the region is an input like any other."""
+        import astropy.units as u
+        from regions import Regions
+        cells = hist_cells()
+        cls, what = cells[a.cell % len(cells)]
+        r = a.rng
+        toks = gen.draw_tokens(r, cls, small=True)
+        meta = [[k, r.pick(v)] for k, v in sorted(gen.META_VALUES.items())
+                if not (what == 'fits' and k == 'component' and r.chance(0.5))]
+        visual = [[k, r.pick(v)] for k, v in sorted(gen.VISUAL_VALUES.items())]
+        reg = build(gen.region_from_tokens(cls, toks, meta, visual))
+        a.track('cell region', reg)
+        sky = 'Sky' in cls
+        if what in ('ds9', 'crtf', 'fits'):
+            kw = {'coordsys': 'image'} if what == 'crtf' and not sky else {}
+            other = build(gen.region_from_tokens(cls, toks))
+            lst = a.track('cell list', Regions([reg, other]))
+            return (lambda: Twice([reg.serialize(format=what, **kw),
+                                   lst.serialize(format=what, **kw)],
+                                  [reg.serialize(format=what, **kw),
+                                   lst.serialize(format=what, **kw)])), \
+                f'cell {cls}.serialize({what})', None
+        if what.startswith('write_'):
+            fmt = what[6:]
+            kw = {'coordsys': 'image'} if fmt == 'crtf' and not sky else {}
+            path = os.path.join(self.disk, f'cell{a.r % 1000003}.dat')
+
+            def fn():
+                reg.write(path, format=fmt, overwrite=True, **kw)
+                return Regions.read(path, format=fmt)
+            return fn, f'cell {cls}.write+read({fmt})', None
+        if what == 'convert':
+            w = a.slot(('wcs',))
+            if sky:
+                return (lambda: reg.to_pixel(w)), f'cell {cls}.to_pixel', None
+            return (lambda: reg.to_sky(w)), f'cell {cls}.to_sky', None
+        if what == 'contains':
+            if sky:
+                w = a.slot(('wcs',))
+                s = a.slot(('sky0', 'skyN'))
+                return (lambda: reg.contains(s, w)), \
+                    f'cell {cls}.contains', None
+            p = a.slot(('pix0', 'pixN'))
+            return (lambda: reg.contains(p)), f'cell {cls}.contains', None
+        if what == 'copy':
+            return (lambda: [reg.copy(), copy.deepcopy(reg), reg == reg,
+                             repr(reg), str(reg)]), f'cell {cls}.copy', \
+                (lambda res: res[:3] + [_ADDR.sub('0x', x) for x in res[3:]])
+        if what == 'mpl':
+            return (lambda: [reg.visual.define_mpl_kwargs(k)
+                             for k in ('Patch', 'Line2D', 'Text')]), \
+                f'cell {cls}.define_mpl_kwargs', None
+        # pixel regions only
+        if what == 'artist':
+            return (lambda: [reg.as_artist(), reg.as_artist(origin=(1, 2))]), \
+                f'cell {cls}.as_artist', None
+        if what == 'mask':
+            return (lambda: [reg.bounding_box, reg.area,
+                             reg.to_mask(mode='center'),
+                             reg.to_mask(mode='subpixels', subpixels=3)]), \
+                f'cell {cls}.to_mask', None
+        p = a.slot(('pix0',))
+        return (lambda: reg.rotate(p, 30 * u.deg)), f'cell {cls}.rotate', None
+
     def op_mpl_kwargs(self, a):
         reg = a.slot(REG)
         art = a.rng.pick(['Patch', 'Line2D', 'Text'])
@@ -1441,7 +1511,8 @@ class Exec:
                     if sel.random() < 0.34:
                         check.add(i)
                 self.check_pool(j, rec, check, stats)
-                if name not in ('write_read', 'read_data', 'shared_io'):
+                if name not in ('write_read', 'read_data', 'shared_io',
+                                'cell'):
                     after_disk = self.disk_canon()
                     if after_disk != before_disk:
                         self.violation('I1-disk', j, rec,
@@ -2017,6 +2088,20 @@ FAULT_OPS = {
     'line_abort': [k for k, _ in OPS if k not in ('get_formats',)],
 }
 NSLOTS = 4
+_HIST_CELLS = []
+
+
+def hist_cells():
+    if not _HIST_CELLS:
+        common = ['ds9', 'crtf', 'fits', 'write_ds9', 'write_crtf',
+                  'write_fits', 'convert', 'contains', 'copy', 'mpl']
+        for cls in sorted(gen.ALL_CLASSES):
+            kinds = common + ([] if 'Sky' in cls else
+                              ['artist', 'mask', 'rotate'])
+            for k in kinds:
+                _HIST_CELLS.append((cls, k))
+    return _HIST_CELLS
+
 TWIN_OPS = ('serialize', 'write_read', 'shared_io', 'to_mask', 'as_artist',
             'plot', 'to_sky', 'to_pixel', 'mask_apply', 'rotate')
 
@@ -2076,6 +2161,14 @@ def gen_plan(seed, index, tier='quick'):
             rep['repeat'] = True
             rep['store'] = False
             ops.append(rep)
+    # the batch enumerates class x kind of call (see op_cell)
+    spots = [i for i in range(len(ops) + 1)
+             if i == len(ops) or not (ops[i].get('repeat')
+                                      or ops[i].get('twin'))]
+    ops.insert(cfg_rng.pick(spots), {
+        'op': 'cell', 's': [ops_rng.randrange(1 << 16)
+                            for _ in range(NSLOTS)],
+        'r': ops_rng.getrandbits(48), 'store': False, 'cell': index})
     return {'engine': ENGINE, 'property': PROPERTY, 'seed': seed,
             'index': index, 'cfg': cfg, 'pool': gen_pool(pool_rng),
             'ops': ops}
